@@ -17,6 +17,7 @@ import (
 
 	"github.com/tsawler/tabula/core"
 	"github.com/tsawler/tabula/reader"
+	"github.com/tsawler/tabula/resolver"
 
 	"verifharness/fw"
 	"verifharness/gen/pdfw"
@@ -247,7 +248,7 @@ func sequences(h history, extra []int, r *rand.Rand) [][]op {
 	}
 	var rnd []op
 	for k := 3 + r.Intn(3*len(cand)+4); k > 0; k-- {
-		switch r.Intn(10) {
+		switch r.Intn(11) {
 		case 0:
 			rnd = append(rnd, op{"clear", 0})
 		case 1:
@@ -258,6 +259,8 @@ func sequences(h history, extra []int, r *rand.Rand) [][]op {
 			rnd = append(rnd, op{"resolve", cand[r.Intn(len(cand))]})
 		case 4:
 			rnd = append(rnd, op{"deep", cand[r.Intn(len(cand))]})
+		case 5:
+			rnd = append(rnd, op{[]string{"rsv-get", "rsv-ref", "rsv-deep"}[r.Intn(3)], cand[r.Intn(len(cand))]})
 		default:
 			rnd = append(rnd, op{"get", cand[r.Intn(len(cand))]})
 		}
@@ -366,6 +369,12 @@ func runHistory(c *fw.Ctx, id string, h history, seed int64) {
 					got, err = rd.GetObject(o.n)
 				case "resolve":
 					got, err = rd.Resolve(core.IndirectRef{Number: o.n, Generation: 0})
+				case "rsv-get":
+					got, err = resolver.NewResolver(rd).GetObject(o.n)
+				case "rsv-ref":
+					got, err = resolver.NewResolver(rd).ResolveReference(core.IndirectRef{Number: o.n, Generation: 0})
+				case "rsv-deep":
+					got, err = resolver.NewResolver(rd).GetObjectResolvedDeep(o.n)
 				case "deep":
 					got, err = rd.ResolveDeep(core.Array{core.IndirectRef{Number: o.n, Generation: 0}})
 					if err == nil {
